@@ -141,6 +141,41 @@ Proof.
   apply step_done_or_fuel; try done. by apply reachable_inv.
 Qed.
 
+(* ---------------------------------------------------------------- the explicit fuel bound *)
+From Aldrin Require Import Broker.FuelProofs.
+
+(* the model's own step (fuel [fuel_for]) is Done: the fuel site 0 is unreachable *)
+Lemma reach_step_total s i :
+  reachable s → legal s i →
+  ∃ s' o, step s (i_ev i) (i_fresh i) (i_bserial i) = Done (s', o) ∧ Inv s'.
+Proof.
+  intros Hr Hl. destruct (legal_split _ _ Hl) as (L1 & L2 & L3).
+  exact (step_total s (i_ev i) (i_fresh i) (i_bserial i) (reachable_inv _ Hr) L1 L2 L3).
+Qed.
+
+Lemma reach_step_total_reach s i :
+  reachable s → legal s i →
+  ∃ s' o, step s (i_ev i) (i_fresh i) (i_bserial i) = Done (s', o) ∧ reachable s' ∧ Inv s'.
+Proof.
+  intros Hr Hl. destruct (reach_step_total s i Hr Hl) as (s' & o & Hs & Hi). exists s', o. split; [done|].
+  split; [eapply reach_step; eauto|done].
+Qed.
+
+Lemma reach_never_panics s i site :
+  reachable s → legal s i → step s (i_ev i) (i_fresh i) (i_bserial i) ≠ Panic site.
+Proof. intros Hr Hl Hp. destruct (reach_step_total s i Hr Hl) as (s' & o & Hs & _). congruence. Qed.
+
+(* history form: every legal history runs to completion *)
+Lemma run_total h : ∀ s, reachable s → legal_run s h → ∃ s' os, run s h = Done (s', os) ∧ reachable s'.
+Proof.
+  induction h as [|i h IH]; intros s Hr Hl; cbn; [eauto|]. destruct Hl as [Hl Hrest].
+  destruct (reach_step_total_reach s i Hr Hl) as (s1 & o & Hs & Hr1 & _). rewrite Hs.
+  destruct (IH s1 Hr1 (Hrest _ _ Hs)) as (s2 & os & Hrun & Hr2). rewrite Hrun. eauto.
+Qed.
+
+Lemma run_total_init h : legal_run init h → ∃ s os, run init h = Done (s, os).
+Proof. intros Hl. destruct (run_total h init reach_init Hl) as (s & os & Hr & _). eauto. Qed.
+
 (* ---------------------------------------------------------------- bystanders stay connected *)
 From Aldrin Require Import Broker.InvProofsAlive.
 From RecordUpdate Require Import RecordSet.
@@ -185,10 +220,10 @@ Proof.
   intros Hc Ha He Hs. rewrite step_step_fuel in Hs. unfold step_fuel in Hs.
   pose proof (handler_stays s e f b c2 cs2 Hc Ha He) as Hh.
   destruct (handler_of s e f b) as [m|m|]; cbn in Hh; [| |done].
-  - pose proof (settle_stays c2 (fuel_for (ms m)) m Hh) as Hst.
-    destruct (settle (fuel_for (ms m)) m) as [m'|m'|]; [| |done]; inversion Hs; subst; apply Hst.
-  - pose proof (settle_stays c2 (fuel_for (ms m)) m Hh) as Hst.
-    destruct (settle (fuel_for (ms m)) m) as [m'|m'|]; [| |done]; inversion Hs; subst; apply Hst.
+  - pose proof (settle_stays c2 (fuel_for m) m Hh) as Hst.
+    destruct (settle (fuel_for m) m) as [m'|m'|]; [| |done]; inversion Hs; subst; apply Hst.
+  - pose proof (settle_stays c2 (fuel_for m) m Hh) as Hst.
+    destruct (settle (fuel_for m) m) as [m'|m'|]; [| |done]; inversion Hs; subst; apply Hst.
 Qed.
 
 (* the sender itself stays when its handler returns Ok *)
@@ -200,8 +235,8 @@ Lemma step_sender_stays s c x f b cs m s' o :
 Proof.
   intros Hc Ha Hh Hs. unfold step in Hs. rewrite Hh in Hs.
   pose proof (handle_stays c _ c x f b (stays_init s c cs Hc Ha)) as Hst. rewrite Hh in Hst. cbn in Hst.
-  pose proof (settle_stays c (fuel_for (ms m)) m Hst) as Hst2.
-  destruct (settle (fuel_for (ms m)) m) as [m'|m'|]; [| |done]; inversion Hs; subst; apply Hst2.
+  pose proof (settle_stays c (fuel_for m) m Hst) as Hst2.
+  destruct (settle (fuel_for m) m) as [m'|m'|]; [| |done]; inversion Hs; subst; apply Hst2.
 Qed.
 
 (* ---------------------------------------------------------------- closing connections *)
@@ -210,11 +245,11 @@ From Aldrin Require Import Broker.InvProofsGone.
 Lemma step_done_settle s e f b s' o :
   step s e f b = Done (s', o) →
   ∃ m m', (handler_of s e f b = Done m ∨ handler_of s e f b = Fail m) ∧
-          settle (fuel_for (ms m)) m = Done m' ∧ s' = ms m' ∧ o = mo m'.
+          settle (fuel_for m) m = Done m' ∧ s' = ms m' ∧ o = mo m'.
 Proof.
   rewrite step_step_fuel. unfold step_fuel. intros Hs.
   destruct (handler_of s e f b) as [m|m|] eqn:Eh; [| |done];
-    (destruct (settle (fuel_for (ms m)) m) as [m'|m'|] eqn:Es; [| |done];
+    (destruct (settle (fuel_for m) m) as [m'|m'|] eqn:Es; [| |done];
      [|exfalso; by eapply settle_never_fails]); inversion Hs; subst; eauto 10.
 Qed.
 
@@ -299,7 +334,183 @@ Proof.
   destruct (step_bystander_stays s (Message c x) (i_fresh i) (i_bserial i) (o_owner o) cso s' out Hco Hao)
     as (cs' & Hc' & _); [cbn; congruence|exact Hs|].
   rewrite step_step_fuel in Hs. unfold step_fuel in Hs. rewrite Hm in Hs.
-  pose proof (settle_spec (fuel_for (ms m)) m HI) as Hst.
-  destruct (settle (fuel_for (ms m)) m) as [m'|m'|]; [|done..]. inversion Hs; subst.
+  pose proof (settle_spec (fuel_for m) m HI) as Hst.
+  destruct (settle (fuel_for m) m) as [m'|m'|]; [|done..]. inversion Hs; subst.
   destruct Hst as (_ & (_ & _ & _ & Hkeep) & _). destruct (Hkeep _ _ Hk) as [?|Hn]; [done|congruence].
 Qed.
+
+(* ---------------------------------------------------------------- channels of other connections *)
+From Aldrin Require Import Broker.FuelProofsFrame.
+
+Lemma handler_keeps_chan s e f b k ch o1 n1 o2 n2 :
+  chans s !! k = Some ch → ch_s ch = Claimed o1 n1 → ch_r ch = Claimed o2 n2 →
+  bystander_ok o1 e → bystander_ok o2 e → f ≠ k →
+  opr (keeps_chan k ch) (handler_of s e f b).
+Proof.
+  intros Hk Hs Hr B1 B2 Hf. unfold handler_of.
+  set (m0 := {| ms := s; mw := work0; mo := [] |}). assert (keeps_chan k ch m0) as H0 by exact Hk.
+  destruct e as [c ver|c|c x| | |c|c]; cbn in B1, B2; try done.
+  - destruct (conns s !! c); [done|exact H0].
+  - pose proof (handle_kc k ch o1 o2 n1 n2 Hs Hr m0 c x f b H0 B1 B2 Hf) as Hh.
+    destruct (handle m0 c x f b) as [m|m|]; cbn in *; done.
+  - cbn. destruct (conns s !! c); exact H0.
+Qed.
+
+(* whatever happens to other connections, a channel whose two ends are claimed by healthy
+   connections is exactly the same after the step *)
+Lemma step_keeps_chan s e f b k ch o1 n1 o2 n2 cs1 cs2 s' out :
+  chans s !! k = Some ch → ch_s ch = Claimed o1 n1 → ch_r ch = Claimed o2 n2 →
+  conns s !! o1 = Some cs1 → cs_alive cs1 = true → conns s !! o2 = Some cs2 → cs_alive cs2 = true →
+  bystander_ok o1 e → bystander_ok o2 e → f ∉ cookies_in_use s →
+  step s e f b = Done (s', out) →
+  chans s' !! k = Some ch.
+Proof.
+  intros Hk Hs Hr Hc1 Ha1 Hc2 Ha2 B1 B2 Hf Hst.
+  assert (f ≠ k) as Hfk.
+  { intros ->. apply Hf. unfold cookies_in_use. apply elem_of_dom_2 in Hk. set_solver. }
+  pose proof (handler_keeps_chan s e f b k ch o1 n1 o2 n2 Hk Hs Hr B1 B2 Hfk) as H3.
+  pose proof (handler_stays s e f b o1 cs1 Hc1 Ha1 B1) as H1.
+  pose proof (handler_stays s e f b o2 cs2 Hc2 Ha2 B2) as H2.
+  apply step_done_settle in Hst as (m & m' & Hm & Hse & -> & _).
+  assert (kc_inv k ch o1 o2 m) as Hi.
+  { destruct Hm as [Hm|Hm]; rewrite Hm in H1, H2, H3; cbn in *; done. }
+  pose proof (settle_kc k ch o1 o2 n1 n2 Hs Hr (fuel_for m) m Hi) as Hk'. rewrite Hse in Hk'.
+  apply Hk'.
+Qed.
+
+Lemma step_keeps_chan_msg s i c x k ch o1 n1 o2 n2 cs1 cs2 s' out :
+  legal s i → i_ev i = Message c x →
+  chans s !! k = Some ch → ch_s ch = Claimed o1 n1 → ch_r ch = Claimed o2 n2 → o1 ≠ c → o2 ≠ c →
+  conns s !! o1 = Some cs1 → cs_alive cs1 = true → conns s !! o2 = Some cs2 → cs_alive cs2 = true →
+  step s (Message c x) (i_fresh i) (i_bserial i) = Done (s', out) →
+  chans s' !! k = Some ch.
+Proof.
+  intros Hl He Hk Hs Hr N1 N2 Hc1 Ha1 Hc2 Ha2 Hst. destruct Hl as (Hf & _).
+  eapply (step_keeps_chan s (Message c x)); eauto; cbn; congruence.
+Qed.
+
+(* ---------------------------------------------------------------- services of other connections *)
+From Aldrin Require Import Broker.Wp.
+
+Lemma handler_keeps_svc s e f b k o ck ock inf :
+  sf k o ck ock inf s → bystander_ok (o_owner o) e → f ≠ ck → f ≠ o_cookie o →
+  res (SP (sf k o ck ock inf)) (SP (sf k o ck ock inf)) (handler_of s e f b).
+Proof.
+  intros H0 B Hf1 Hf2. unfold handler_of. set (m0 := {| ms := s; mw := work0; mo := [] |}).
+  destruct e as [c ver|c|c x| | |c|c]; cbn in B; try done.
+  - destruct (conns s !! c); [done|exact H0].
+  - pose proof (handle_sf k o ck ock inf m0 c x f b H0 B Hf1 Hf2) as Hh.
+    destruct (handle m0 c x f b) as [m|m|]; cbn in *; done.
+  - cbn. destruct (conns s !! c); exact H0.
+Qed.
+
+Lemma in_use_obj s u o : objs s !! u = Some o → o_cookie o ∈ cookies_in_use s.
+Proof.
+  intros H. unfold cookies_in_use. rewrite !elem_of_union. left. left. left.
+  apply elem_of_list_to_set, elem_of_list_fmap. exists (u, o). split; [done|]. by apply elem_of_map_to_list.
+Qed.
+Lemma in_use_svc s k sv : svcs s !! k = Some sv → s_cookie sv ∈ cookies_in_use s.
+Proof.
+  intros H. unfold cookies_in_use. rewrite !elem_of_union. left. left. right.
+  apply elem_of_list_to_set, elem_of_list_fmap. exists (k, sv). split; [done|]. by apply elem_of_map_to_list.
+Qed.
+
+(* whatever happens to other connections, a service whose owner is healthy is still registered
+   under its key, for the same owner, with the same cookie, object cookie and info *)
+Lemma step_keeps_svc s e f b k sv g csg s' out :
+  Inv s → svcs s !! k = Some sv → owner_of_svc s k = Some g →
+  conns s !! g = Some csg → cs_alive csg = true → bystander_ok g e → f ∉ cookies_in_use s →
+  step s e f b = Done (s', out) →
+  owner_of_svc s' k = Some g ∧
+  ∃ sv', svcs s' !! k = Some sv' ∧ s_cookie sv' = s_cookie sv ∧ s_obj_cookie sv' = s_obj_cookie sv ∧
+         s_info sv' = s_info sv.
+Proof.
+  intros HI Hk Ho Hc Ha B Hf Hst. unfold owner_of_svc in Ho.
+  destruct (objs s !! k.1) as [o|] eqn:Eo; [|done]. cbn in Ho. injection Ho as <-.
+  assert (sf k o (s_cookie sv) (s_obj_cookie sv) (s_info sv) s) as H0.
+  { split; [done|]. split; [exists sv; by repeat split|]. split.
+    - intros u' o' Hu' Hco. eapply (iv_uo _ _ _ _ _ HI); eauto.
+    - intros k' sv' Hk' Hco. eapply (iv_us _ _ _ _ _ HI); eauto. }
+  assert (f ≠ s_cookie sv) as Hf1 by (intros ->; apply Hf; by eapply in_use_svc).
+  assert (f ≠ o_cookie o) as Hf2 by (intros ->; apply Hf; by eapply in_use_obj).
+  pose proof (handler_keeps_svc s e f b k o _ _ _ H0 B Hf1 Hf2) as H3.
+  pose proof (handler_stays s e f b (o_owner o) csg Hc Ha B) as H1.
+  apply step_done_settle in Hst as (m & m' & Hm & Hse & -> & _).
+  assert (sf_inv k o (s_cookie sv) (s_obj_cookie sv) (s_info sv) m) as Hi.
+  { destruct Hm as [Hm|Hm]; rewrite Hm in H1, H3; cbn in *; done. }
+  pose proof (settle_sf k o _ _ _ (fuel_for m) m Hi) as Hk'. rewrite Hse in Hk'.
+  destruct Hk' as (_ & Hob & (sv' & Hsv' & E1 & E2 & E3) & _).
+  split; [unfold owner_of_svc; by rewrite Hob|]. eauto 10.
+Qed.
+
+Lemma reach_keeps_svc s e f b k sv g csg s' out :
+  reachable s → svcs s !! k = Some sv → owner_of_svc s k = Some g →
+  conns s !! g = Some csg → cs_alive csg = true → bystander_ok g e → f ∉ cookies_in_use s →
+  step s e f b = Done (s', out) →
+  owner_of_svc s' k = Some g ∧
+  ∃ sv', svcs s' !! k = Some sv' ∧ s_cookie sv' = s_cookie sv ∧ s_obj_cookie sv' = s_obj_cookie sv ∧
+         s_info sv' = s_info sv.
+Proof. intros Hr. apply step_keeps_svc. by apply reachable_inv. Qed.
+
+(* ---------------------------------------------------------------- pending calls between other connections *)
+From Aldrin Require Import Broker.FuelProofsFrameCalls.
+
+Lemma handler_keeps_call s e f bs b cl o ck ock inf :
+  cf b cl o ck ock inf s → bystander_ok (c_caller cl) e → bystander_ok (o_owner o) e →
+  f ≠ ck → f ≠ o_cookie o →
+  opr (fun m => cf b cl o ck ock inf (ms m) ∧ nb b m) (handler_of s e f bs).
+Proof.
+  intros H0 B1 B2 Hf1 Hf2. unfold handler_of. set (m0 := {| ms := s; mw := work0; mo := [] |}).
+  assert (nb b m0) as Hn0 by (intros callee Hin; by apply elem_of_nil in Hin).
+  destruct e as [c ver|c|c x| | |c|c]; cbn in B1, B2; try done.
+  - destruct (conns s !! c); [done|]. cbn. split; [|exact Hn0]. unfold cf in *. cbn.
+    apply cf_conn_new; [exact H0|]. intros serial callee. cbn. by rewrite lookup_empty.
+  - pose proof (handle_cf b cl o ck ock inf m0 c x f bs H0 B1 B2 Hf1 Hf2) as Hh.
+    pose proof (handle_nb b m0 c x f bs Hn0) as Hh2.
+    assert (∀ cs, conns (ms m0) !! c = Some cs → no_entry b cs) as Hne.
+    { intros cs Hcs. eapply cf_no_entry; [exact H0|exact Hcs|exact B1]. }
+    specialize (Hh2 Hne). destruct (handle m0 c x f bs) as [m|m|]; cbn in *; done.
+  - cbn. destruct (conns s !! c) as [cs|] eqn:Ec; [|done]. split; [|exact Hn0]. unfold cf in *. cbn.
+    eapply cf_conn_update; [exact H0|exact Ec|]. intros Hn. exact Hn.
+Qed.
+
+(* whatever happens to other connections, a pending call whose caller and callee (the owner of the
+   called service's object) are healthy keeps its record: not dropped, not answered, not aborted *)
+Lemma step_keeps_call s e f bs b cl g cs1 cs2 s' out :
+  Inv s → calls s !! b = Some cl → owner_of_svc s (c_svc cl) = Some g →
+  conns s !! c_caller cl = Some cs1 → cs_alive cs1 = true → conns s !! g = Some cs2 → cs_alive cs2 = true →
+  bystander_ok (c_caller cl) e → bystander_ok g e → f ∉ cookies_in_use s →
+  step s e f bs = Done (s', out) →
+  calls s' !! b = Some cl.
+Proof.
+  intros HI Hb Ho Hc1 Ha1 Hc2 Ha2 B1 B2 Hf Hst. unfold owner_of_svc in Ho.
+  destruct (objs s !! (c_svc cl).1) as [o|] eqn:Eo; [|done]. cbn in Ho. injection Ho as <-.
+  destruct (iv_cs _ _ _ _ _ HI _ _ Hb) as (sv & Hsv & Hbin).
+  assert (cf b cl o (s_cookie sv) (s_obj_cookie sv) (s_info sv) s) as H0.
+  { split; [done|]. split; [|split; [|split]].
+    - split; [done|]. split; [exists sv; by repeat split|]. split.
+      + intros u' o' Hu' Hco. eapply (iv_uo _ _ _ _ _ HI); eauto.
+      + intros k' sv' Hk' Hco. eapply (iv_us _ _ _ _ _ HI); eauto.
+    - intros k' sv' Hk' Hin. destruct (iv_sc _ _ _ _ _ HI _ _ _ Hk' Hin) as (cl' & Hcl' & <-). congruence.
+    - intros c' cs' Hc' Hne serial callee Hent.
+      destruct (iv_ec _ _ _ _ _ HI _ _ _ _ _ Hc' Hent) as [(cl' & Hcl' & <- & _)|[Hn _]]; congruence.
+    - apply (iv_cb _ _ _ _ _ HI). eauto. }
+  assert (f ≠ s_cookie sv) as Hf1 by (intros ->; apply Hf; by eapply in_use_svc).
+  assert (f ≠ o_cookie o) as Hf2 by (intros ->; apply Hf; by eapply in_use_obj).
+  pose proof (handler_keeps_call s e f bs b cl o _ _ _ H0 B1 B2 Hf1 Hf2) as H3.
+  pose proof (handler_stays s e f bs (c_caller cl) cs1 Hc1 Ha1 B1) as H1.
+  pose proof (handler_stays s e f bs (o_owner o) cs2 Hc2 Ha2 B2) as H2.
+  apply step_done_settle in Hst as (m & m' & Hm & Hse & -> & _).
+  assert (cf_inv b cl o (s_cookie sv) (s_obj_cookie sv) (s_info sv) m) as Hi.
+  { destruct Hm as [Hm|Hm]; rewrite Hm in H1, H2, H3; cbn in *; unfold cf_inv; tauto. }
+  pose proof (settle_cf b cl o _ _ _ (fuel_for m) m Hi) as Hk'. rewrite Hse in Hk'.
+  destruct Hk' as (_ & _ & (Hcall & _) & _). exact Hcall.
+Qed.
+
+Lemma reach_keeps_call s e f bs b cl g cs1 cs2 s' out :
+  reachable s → calls s !! b = Some cl → owner_of_svc s (c_svc cl) = Some g →
+  conns s !! c_caller cl = Some cs1 → cs_alive cs1 = true → conns s !! g = Some cs2 → cs_alive cs2 = true →
+  bystander_ok (c_caller cl) e → bystander_ok g e → f ∉ cookies_in_use s →
+  step s e f bs = Done (s', out) →
+  calls s' !! b = Some cl.
+Proof. intros Hr. apply step_keeps_call. by apply reachable_inv. Qed.
